@@ -50,6 +50,10 @@ def b01 (b : Bool) : String := if b then "1" else "0"
 def aggDump (a : AggRec) : String :=
   s!"{a.flowType}/{corrToken a.corr}/{a.start}/{a.end_}/{a.endReason}/{hexOrDash a.tcpState}/{natsToken a.stats}/{natsToken a.srcStats}/{natsToken a.dstStats}/{a.endSrc}/{a.endDst}/{natsToken a.thr}/{natsToken a.thrSrc}/{natsToken a.thrDst}/{b01 a.ready}/{a.retries}/{b01 a.corrFilled}"
 
+/-- the engine's dump: an 18th field, the stored httpVals (`~` = the stored record has no such element) -/
+def aggDumpE (a : AggRec) : String :=
+  aggDump a ++ "/" ++ (match a.httpVals with | some b => "x" ++ hexOrDash b | none => "~")
+
 /-- the permutation seed of a trailing `p<n>` token as Go's strconv.ParseInt(_, 10, 64) reads it; `agg rec` takes a
     negative seed too (and then does not permute), `agg msg` refuses it -/
 def permOk (allowNeg : Bool) (p : String) : Bool :=
@@ -73,7 +77,7 @@ def parseKeyTok (k : String) : Option Nat :=
 
 /-- the eight arguments of one record; the ranges are those the harness enforces (flowType and flowEndReason are
     unsigned8, the two times unsigned32, the eight statistics unsigned64) -/
-def parseRecCore (a : List String) : Option InRec :=
+def parseRec8 (a : List String) : Option InRec :=
   match a with
   | [k, ft, corr, st, en, reason, tcp, stats] => do
     let k ← parseKeyTok k
@@ -88,11 +92,28 @@ def parseRecCore (a : List String) : Option InRec :=
     else pure { key := k, flowType := ft, corr := c, start := st, end_ := en, endReason := reason, tcpState := tcp, stats := stats }
   | _ => none
 
+/-- ... and, in the sessions created with `http`, a ninth: `h=<hex>`, what the record's httpVals element holds -/
+def parseRecCore (a : List String) : Option InRec :=
+  match a with
+  | [k, ft, corr, st, en, reason, tcp, stats, h] =>
+    if h.startsWith "h=" then do
+      let r ← parseRec8 [k, ft, corr, st, en, reason, tcp, stats]
+      let v ← fromHex (h.drop 2).toString
+      pure { r with httpVals := some v }
+    else none
+  | _ => parseRec8 a
+
 /-- a record with any key (the linearizability harness has its own key table) -/
 def parseRec (a : List String) : Option InRec := parseRecCore (stripPerm true a)
 
-/-- the engine's key table has the five-tuples 1..6 (harness: aggKeys) -/
-def aggKeyOk (k : Nat) : Bool := 1 ≤ k && k ≤ 6
+/-- the engine's key table has the five-tuples 1..6 (harness: aggKeys) and the synthesized IPv4 five-tuples
+    7..4000 (harness: aggKey); for the model a flow key is an opaque number -/
+def aggKeyOk (k : Nat) : Bool := 1 ≤ k && k ≤ 4000
+
+/-- a trailing `omit=<names>` token of `agg rec`: the record's template lacks these elements. Such a record is
+    outside the model (the aggregation may refuse it half-way through its updates) -/
+def hasOmit (a : List String) : Bool :=
+  a.length ≥ 9 && (match a.getLast? with | some t => t.startsWith "omit=" | none => false)
 
 /-- `agg rec` -/
 def parseRecA (a : List String) : Option InRec := (parseRec a).filter (fun r => aggKeyOk r.key)
@@ -109,25 +130,47 @@ def keyIsV6 (k : Nat) : Bool := k == 4 || k == 5
 /-- which correlate fields a record lacks -/
 def absentMask (r : InRec) : List Bool := r.corr.map CorrV.isAbsent
 
+/-- a record that travels exporter encoding -> collector decoding: the exporter writes an IPv4 element as the four
+    bytes `To4()` of its value, so the decoded value is the 4-byte form whichever form was handed over (a value
+    that is no IPv4 address cannot be encoded: the harness answers bad-op) -/
+def wireForm (r : InRec) : Option InRec := do
+  let c ← r.corr.mapM fun v => match v with
+    | .ip4 b => (to4 b).map .ip4
+    | v => some v
+  pure { r with corr := c }
+
 /-- `agg msg <rec_1> + ... + <rec_k> [p<n>]`: the records of ONE data set as the collector decodes it (one
     template: one element order, one address family, one set of fields - so the records lack the same correlate
     fields). For the aggregation a message is its records in order. -/
 def parseMsg (a : List String) : Option (List InRec) :=
-  match (splitTokens "+" (stripPerm false a)).mapM parseRecCore with
+  match ((splitTokens "+" (stripPerm false a)).mapM parseRecCore).bind (·.mapM wireForm) with
   | some (r :: rs) =>
     if (r :: rs).all (fun x => aggKeyOk x.key) && rs.all (fun x => keyIsV6 x.key == keyIsV6 r.key && absentMask x == absentMask r)
     then some (r :: rs) else none
   | _ => none
 
+/-- the options of `agg new`: [cfg<n>] [http] -/
+def newOptsOk (opts : List String) : Bool :=
+  let cfgOk (c : String) : Bool := c.startsWith "cfg" && (decBelow 9223372036854775808 (c.drop 3).toString).isSome
+  match opts with
+  | [] => true
+  | ["http"] => true
+  | [c] => cfgOk c
+  | [c, "http"] => cfgOk c
+  | _ => false
+
 /-- engine "agg": see harness/cmd/harness/eng_agg.go -/
 def engAgg (s : Agg.State) (a : List String) : Agg.State × String :=
   match a with
-  | ["new", act, inact] =>
+  | "new" :: act :: inact :: opts =>
+    -- cfg<n> = the same configuration with its lists in another order, http = httpVals is configured (every record
+    -- of the session then carries an h= token): neither changes what the model does
     match act.toNat?, inact.toNat? with
-    | some x, some y => ({ activeT := x, inactiveT := y }, "ok")
+    | some x, some y => if newOptsOk opts then ({ activeT := x, inactiveT := y }, "ok") else (s, "bad-op")
     | _, _ => (s, "bad-op")
   | "rec" :: rest =>
-    match parseRecA rest with
+    if hasOmit rest then (s, "na")      -- outside the model
+    else match parseRecA rest with
     | some r => (ingest s r, "ok")
     | none => (s, "bad-op")
   | "msg" :: rest =>
@@ -142,11 +185,11 @@ def engAgg (s : Agg.State) (a : List String) : Agg.State × String :=
   | ["scan", fails, reset] =>
     let fl : List Nat := if fails == "-" then [] else (fails.splitOn ",").filterMap (·.toNat?)
     let (s', o) := scan s (fun k => fl.contains k) (reset == "1")
-    let cbs := joinOr ";" (o.callbacks.map fun (k, a) => s!"{k}={aggDump a}")
+    let cbs := joinOr ";" (o.callbacks.map fun (k, a) => s!"{k}={aggDumpE a}")
     (s', s!"cb {cbs} {if o.failed then "fail" else "ok"}")
   | ["dump"] =>
     let fs := s.flows.toArray.qsort (fun a b => a.1 < b.1) |>.toList
-    (s, joinOr ";" (fs.map fun (k, a) => s!"{k}={aggDump a}"))
+    (s, joinOr ";" (fs.map fun (k, a) => s!"{k}={aggDumpE a}"))
   | ["snap"] =>
     let ks := (s.flows.map (·.1)).toArray.qsort (· < ·) |>.toList
     let items := s.pq.toList.map fun it =>
@@ -194,11 +237,15 @@ def snapAfterRec (s : C06.Snap) (k now a i : Nat) : C06.Snap :=
 def chkAgg (t : C06.Tracker) (a : List String) : C06.Tracker × String :=
   let (op, obs) := splitBar a
   match op with
-  | ["new", x, y] => ({ a := (x.toNat?).getD 0, i := (y.toNat?).getD 0 }, "holds")
+  | "new" :: x :: y :: _ => ({ a := (x.toNat?).getD 0, i := (y.toNat?).getD 0 }, "holds")
   | ["adv", d] => ({ t with now := t.now + (d.toNat?).getD 0 }, "holds")
-  | "rec" :: k :: _ =>
+  | "rec" :: k :: rest =>
+    let om := hasOmit (k :: rest)
     match obs, k.toNat? with
-    | ["ok"], some k => ({ t with pending := .record k }, "holds")
+    | ["ok"], some k => ({ t with pending := .record k, lax := t.lax || om }, "holds")
+    -- a record whose template lacks elements may be refused; a refused record leaves the schedule alone: the
+    -- tracker is what it was, and the next snapshot is judged as if nothing had been sent (Spec.C06.checkIdle)
+    | ["err"], some _ => if om || t.lax then (t, "holds") else (t, "fails record-refused")
     | _, _ => (t, "fails record-refused")
   | "msg" :: rest =>
     match obs, (parseMsg rest).map (fun rs => rs.map (·.key)) with
@@ -223,7 +270,10 @@ def chkAgg (t : C06.Tracker) (a : List String) : C06.Tracker × String :=
       | some why => (t', s!"fails sched {why}")
       | none =>
         match t.pending with
-        | .none => (t', if s.queue.length == t.last.queue.length then "holds" else "fails changed-without-op")
+        | .none =>
+          match C06.checkIdle t.last s with
+          | some why => (t', s!"fails idle {why}")
+          | none => (t', "holds")
         | .record k =>
           match C06.checkRec t.last s k t.now t.a t.i with
           | some why => (t', s!"fails rec {why}")
@@ -243,7 +293,7 @@ def parseShown (tok : String) : Option C07.Shown :=
   | [k, d] =>
     match k.toNat?, d.splitOn "/" with
     | some k, f =>
-      if f.length != 17 then none
+      if f.length != 18 then none
       else do
         let c ← parseCorr (f.getD 1 "")
         pure { key := k, corr := c, ready := f.getD 14 "" == "1", filled := f.getD 16 "" == "1" }
@@ -254,9 +304,13 @@ def parseShown (tok : String) : Option C07.Shown :=
 def chkAggC (t : C07.Tracker) (a : List String) : C07.Tracker × String :=
   let (op, obs) := splitBar a
   match op with
-  | ["new", _, _] => ({}, "holds")
+  | "new" :: _ :: _ :: _ => ({}, "holds")
+  | _ =>
+  if t.off then (t, "na")
+  else match op with
   | "rec" :: rest =>
-    match parseRecA rest, obs with
+    if hasOmit rest then ({ t with off := true }, "na")
+    else match parseRecA rest, obs with
     | some r, ["ok"] => (t.onRecord r, "holds")
     | _, _ => (t, "fails record-refused")
   | "msg" :: rest =>
@@ -288,7 +342,7 @@ def chkAggC (t : C07.Tracker) (a : List String) : C07.Tracker × String :=
       else
         let ss := shown.filterMap id
         -- flows that are gone (expired / dropped) are forgotten: a later record starts a new flow
-        let t' : C07.Tracker := { flows := t.flows.filter fun f => ss.any (·.key == f.key) }
+        let t' : C07.Tracker := { t with flows := t.flows.filter fun f => ss.any (·.key == f.key) }
         match ss.filterMap (C07.checkShown t') with
         | w :: _ => (t', s!"fails dump {w}")
         | [] => (t', "holds")
@@ -299,7 +353,7 @@ def parseShown05 (tok : String) : Option (Nat × C05.Shown) :=
   match tok.splitOn "=" with
   | [k, d] =>
     let f := d.splitOn "/"
-    if f.length != 17 then none
+    if f.length != 18 then none
     else do
       let k ← k.toNat?
       let en ← (f.getD 3 "").toNat?
@@ -324,9 +378,13 @@ def judge05 (t : C05.Tracker) (shown : List (Nat × C05.Shown)) : Option String 
 def chkAggA (t : C05.Tracker) (a : List String) : C05.Tracker × String :=
   let (op, obs) := splitBar a
   match op with
-  | ["new", _, _] => ({}, "holds")
+  | "new" :: _ :: _ :: _ => ({}, "holds")
+  | _ =>
+  if t.off then (t, "na")
+  else match op with
   | "rec" :: rest =>
-    match parseRecA rest, obs with
+    if hasOmit rest then ({ t with off := true }, "na")
+    else match parseRecA rest, obs with
     | some r, ["ok"] => (t.add r.key (.record r), "holds")
     | _, _ => (t, "fails record-refused")
   | "msg" :: rest =>
@@ -358,7 +416,7 @@ def chkAggA (t : C05.Tracker) (a : List String) : C05.Tracker × String :=
       if shown.any (·.isNone) then (t, "fails obs")
       else
         let ss := shown.filterMap id
-        let t' : C05.Tracker := { flows := t.flows.filter fun f => ss.any (·.1 == f.1) }
+        let t' : C05.Tracker := { t with flows := t.flows.filter fun f => ss.any (·.1 == f.1) }
         if ss.length != t'.flows.length then (t', "fails one-flow-per-key")
         else match judge05 t' ss with
           | some w => (t', s!"fails dump {w}")
